@@ -121,7 +121,8 @@ theorem walkStep_nodisp_conf {tr : Name → Name} {app : App} (hnd : NoDispatch 
       .ok { node := app.g.getattr st.node (tr name), iter := rest,
             trail := st.trail ++ [⟨name, app.g.getattr st.node (tr name),
               cpOf app.g (app.g.getattr st.node (tr name)) ++
-                secOf app.sections (slashes (pre ++ [name])), rest.length⟩] } := by
+                secOf app.sections (slashes (pre ++ [name])), rest.length⟩],
+            params := st.params } := by
   unfold walkStep
   rw [resolve_nodisp hnd]
   dsimp only
@@ -170,7 +171,8 @@ theorem walk_nodisp_spec {tr : Name → Name} {app : App} (hnd : NoDispatch app.
         { node := app.g.getattr st.node (tr name), iter := rest,
           trail := st.trail ++ [⟨name, app.g.getattr st.node (tr name),
             cpOf app.g (app.g.getattr st.node (tr name)) ++
-              secOf app.sections (slashes (pre ++ [name])), rest.length⟩] }
+              secOf app.sections (slashes (pre ++ [name])), rest.length⟩],
+          params := st.params }
         rfl (by simp only [List.length_cons] at hle; omega)
       rw [hpre]
       refine ⟨st', hw, ?_⟩
